@@ -41,7 +41,7 @@ theorem varint_roundtrip (v : BitVec 64) (rest : Bytes) :
 
 /-! ## the reference decoder reads what Marshal writes (proofs in Enc/Lemmas/ProtoWire*.lean, 2.6 k lines)
 
-Universe `tyOK`: messages whose fields are bool, all integer kinds (plain, zigzag32/64, fixed32/64 on uint32/uint64),
+Universe `tyOK`: messages whose fields are bool, all integer kinds (plain, zigzag32/64, fixed32/64 on uint32/uint64, sfixed32/64 on int32/int64),
 float32/64, string, []byte, nested messages, pointers to those scalars and to messages, and repeated fields of
 scalars, []byte and messages; field numbers 1…65535, pairwise distinct. `hasType`: value shapes and ranges.
 `tagAgree` (model and specification read the struct tag alike) is proved for untagged fields (`tagAgree_empty`) and is
